@@ -24,6 +24,19 @@ list assignments.
     return True
 
 
+def sample_variables(variables, k):
+    """Sample k distinct elements of the range `variables`"""
+    try:
+        return random.sample(variables, k)
+    except OverflowError:
+        # the range is too long for len() (n >= 2**63): collisions
+        # are so rare that we simply draw until we have k variables
+        chosen = set()
+        while len(chosen) < k:
+            chosen.add(random.randrange(variables.start, variables.stop))
+        return list(chosen)
+
+
 def sample_clauses(k, n, m, planted_assignments):
     """Sample m random k-clauses on a set of n variables
 
@@ -42,7 +55,7 @@ wasteful for just few samples."""
     while len(clauses) < m and t < 10 * m:
         t += 1
 
-        selection = sorted(random.sample(variables, k))
+        selection = sorted(sample_variables(variables, k))
         cls = [v*random.choice([1, -1]) for v in selection]
         tcls = tuple(cls)
 
